@@ -347,6 +347,12 @@ func (m *RuleManager) savePatch(p *ruleConfig) error {
 	// 2. in case that PD is suddenly down in the loop, inconsistency again
 	// now we can only rely clients to request again
 	var err error
+	// refuse a group id the storage will not take before anything is written.
+	for id := range p.groups {
+		if err = core.CheckRuleGroupID(id); err != nil {
+			return err
+		}
+	}
 	for key, r := range p.rules {
 		if r == nil {
 			r = &Rule{GroupID: key[0], ID: key[1]}
